@@ -98,6 +98,9 @@ func candidates(pre []int, ob []int) []int {
 // okState is the precondition of the C01-C03 events: no candidate data
 // address inside the instruction's own bytes or in FE00-FEFF (that range
 // belongs to C17), and the code bytes in plain RAM.
+// okAllowOAM: the rig's LCD is off, so FE00-FE9F is plain memory; the mem family lets pointers into it (set only there)
+var okAllowOAM bool
+
 func okState(pre []int, ob []int) bool {
 	pc := pre[9]
 	inRAM := func(a int) bool { return (a >= 0xc000 && a < 0xde00) || (a >= 0xff80 && a < 0xfffe) }
@@ -112,7 +115,7 @@ func okState(pre []int, ob []int) bool {
 		if a >= 0xe000 && a < 0xfe00 && a-0x2000 >= pc-1 && a-0x2000 <= pc+3 {
 			return false
 		}
-		if a >= 0xfe00 && a <= 0xfeff {
+		if a >= 0xfe00 && a <= 0xfeff && !(okAllowOAM && a < 0xfea0) {
 			return false
 		}
 	}
@@ -789,19 +792,23 @@ func cpuGen(c *Ctx) {
 		// every opcode with all pointers steered into each memory region (C03: addressed location)
 		rng := c.Rand(108)
 		e := em("mem")
-		regions := [][2]int{{0xc000, 0xde00}, {0xe000, 0xfe00}, {0xff80, 0xffff}, {0x8000, 0xa000}, {0xa000, 0xc000}, {0xff10, 0xff40}, {0x0000, 0x8000}}
+		regions := [][2]int{{0xc000, 0xde00}, {0xe000, 0xfe00}, {0xff80, 0xffff}, {0x8000, 0xa000}, {0xa000, 0xc000}, {0xff10, 0xff40}, {0x0000, 0x8000}, {0xfe00, 0xfea0}}
 		k := 3
 		if thorough {
 			k = 16
 		}
 		for _, o := range ops {
 			for _, rg := range regions {
+				okAllowOAM = rg[0] == 0xfe00 // OAM with the LCD off (the rig's state) is plain memory, DMAs of earlier units are over
 				for i := 0; i < k; i++ {
 					var ob []int
 					pre := draw(rng, []int{0, 0, 0}, func() []int {
 						nn := rg[0] + 4 + rng.Intn(rg[1]-rg[0]-8)
 						b1 := nn & 0xff
 						ob = opBytes(o.op, o.cb, b1, nn>>8)
+						if o.cb && rg[0] == 0xfe00 {
+							ob[2] = 0xd1 // the byte after a CB instruction is not an operand: keep the formal "nn" out of FEA0-FEFF
+						}
 						s := regionRegs(rng, rg[0], rg[1])
 						if rg[0] >= 0xff00 {
 							s[3] = rg[0]&0xff + rng.Intn(rg[1]-rg[0])
@@ -818,6 +825,7 @@ func cpuGen(c *Ctx) {
 				}
 			}
 		}
+		okAllowOAM = false
 		e.flush()
 	}
 	if c.Want("pert") {
